@@ -31,7 +31,7 @@ def run(tier, seed):
     ck.assumptions += ["the equivalence relation of reference is left multiplication by proper group operations (what angle_with / IPF implement)"]
     if not ck.step_sanity():
         return ck.finish()
-    ck.step_prove(["quatkernels", "conversions"], "Props/C06.v", extra=["Model/RotArr.vo"])
+    ck.step_prove(["quatkernels", "conversions", "groups", "sectors"], "Props/C06.v", extra=["Model/RotArr.vo"])
     out = run_impl("c06.py", {"seed": seed, "n": 60 if tier == "quick" else 400, "nv": 3 if tier == "quick" else 6, "thorough": tier != "quick"}, timeout=3000)
     cases = out["cases"]
     for c in cases:
